@@ -17,6 +17,9 @@ type Header struct {
 }
 
 func NewHeader(s *openapi3.Header, schemas ComponentsSchemas, opts SchemaOptions) (*Header, error) {
+	if s == nil {
+		return nil, fmt.Errorf("header is empty")
+	}
 	hSchema, err := NewSchemaRef(s.Schema, schemas, opts)
 	if err != nil {
 		return nil, fmt.Errorf("new schema ref: %w", err)
